@@ -605,7 +605,10 @@ func (H) Run(c *core.RunCtx) {
 							flushing++ // the phase ends only after the competitor is done
 							sim.SpawnIn(n.inc, "competitor", func() {
 								defer func() { released = true; flushing-- }()
-								call() // another caller, same name
+								// another caller of the same metric name (every shard's index worker and the metadata worker
+								// call GenMetricID on the shared metadata database; series ids of one index database
+								// are generated by its own worker only, so the competitor stays at the metric level)
+								n.genMetric(nss[o.A%2], names[o.B%4])
 								sim.Await(func() bool { return metaFlushing == 0 || n.dead })
 								if n.dead {
 									return
